@@ -159,14 +159,14 @@ def warmup():
     run({'op': 'table', 'kd': 'int64', 'okeys': [], 'ovf': [], 'nkeys': [],
          'fields': [{'k': 's', 'o': [], 'n': []}]})
     # every key dtype / payload dtype compiles its own specialisation of the kernels
-    for kd in NUM_KD:
+    for kd in NUM_KD_QUICK:        # (the dtypes only the thorough tier uses are compiled on first use)
         pal = KEY_PALETTE[kd]
         run({'op': 'table', 'kd': kd, 'okeys': [pal[1], pal[0], pal[0]], 'ovf': [1, 2, 1], 'nkeys': [pal[2], pal[0]],
              'cs': 1, 'scs': 2, 'vft': 1, 'fields': [{'k': 'n', 'o': [1, 2, 3], 'n': [2, 5]}]})
-    for w in (2, 3, 4):
+    for w in (2, 3, 4, 8):
         run({'op': 'table', 'kd': 'S%d' % w, 'okeys': [[98], [97, 32], [97, 32]], 'ovf': [1, 2, 1], 'nkeys': [[99], [97, 32]],
              'cs': 2, 'fields': [{'k': 'n', 'o': [1, 2, 3], 'n': [2, 5]}]})
-    for d in PAYLOAD_D:
+    for d in PAYLOAD_D_QUICK:
         f = _retype({'k': 'n', 'o': [1, 2, 3], 'n': [2, 5]}, d)
         run({'op': 'table', 'kd': 'int32', 'okeys': [1, 0, 0], 'ovf': [1, 2, 1], 'nkeys': [2, 0], 'fields': [f]})
     # the forked children must not share an open h5py file / Session with the parent
@@ -643,6 +643,7 @@ def skip(case, mode):
 
 # ---- planted value domains ---------------------------------------------------------------------------------------
 NUM_KD = ['int8', 'uint8', 'int16', 'uint16', 'int32', 'uint32', 'int64', 'uint64', 'float32', 'float64']
+NUM_KD_QUICK = ['int8', 'uint8', 'int32', 'int64', 'uint64', 'float32', 'float64']   # every dtype = one more compilation
 KEY_PALETTE = {     # ascending; the extremes of the dtype, the neighbours of 0, of the sign bit and of 2^53 / 2^24
     'int8': [-128, -127, -1, 0, 1, 126, 127],
     'uint8': [0, 1, 127, 128, 254, 255],
@@ -661,6 +662,7 @@ KEY_BYTES = [0, 9, 32, 65, 97, 128, 255]
 # payload dtypes: a strictly increasing map from the small row-identity integers (< 256) into the dtype, placed where a
 # narrower / floating comparison loses the difference
 PAYLOAD_D = ['int8', 'int32', 'int64hi', 'int64lo', 'uint64', 'float32', 'float64', 'S2']
+PAYLOAD_D_QUICK = ['int8', 'int64hi', 'int64lo', 'uint64', 'float32', 'float64', 'S2']
 
 
 def _pmap(d, v):
@@ -812,13 +814,13 @@ def gen(tier, rng):
 
 # size parameters given to the real code (None = the library's 2^20)
 CS_ROT = [1, 2, 3, None, 4, 1, 5, 2, 7, 3]
-SCS_ROT = [None, 1, 2, None, 3, 5]
+SCS_ROT = [1, 2, 3, None, 5, 2, 8, 1, 64, 3, 4096, 7]     # small field chunk sizes also make a case cheaper (write buffers)
 
 
 def _dress(case, c, rng=None):
     """rotate the configuration dimensions over consecutive cases (c = running counter)"""
     case['cs'] = CS_ROT[c % len(CS_ROT)]
-    case['scs'] = SCS_ROT[(c // 3) % len(SCS_ROT)]
+    case['scs'] = SCS_ROT[c % len(SCS_ROT)]
     if case['cs'] is None: del case['cs']
     if case['scs'] is None: del case['scs']
     if c % 8 == 5: case['twice'] = True
@@ -845,6 +847,27 @@ def _shape_table(shape, rng, kinds, kd='int64', keymap=None):
         okeys = [keymap[k] for k in okeys]
         nk = [keymap[k] for k in nk]
     return {'op': 'table', 'kd': kd, 'okeys': okeys, 'ovf': ovf, 'nkeys': nk, 'fields': fields}
+
+
+def _confine(case, rng):
+    """differences confined to ONE column: for every key present in both tables whose snapshot record differs, one
+    (seeded) compared field keeps its difference and every other field is reset to the latest old version"""
+    ok, nk = _kz(case)
+    ovf = case['ovf']
+    fields = [dict(f, n=list(f['n'])) for f in case['fields']]
+    for j, k in enumerate(nk):
+        rows = sorted((i for i in range(len(ok)) if ok[i] == k), key=lambda i: (ovf[i], i))
+        if not rows:
+            continue
+        last = rows[-1]
+        dif = [i for i, f in enumerate(fields) if f['o'][last] != f['n'][j]]
+        if len(dif) >= 2:
+            keep = rng.choice(dif)
+            for i in dif:
+                if i != keep:
+                    fields[i]['n'][j] = fields[i]['o'][last]
+    case['fields'] = fields
+    return case
 
 
 def _rows_of(shape):
@@ -903,7 +926,7 @@ def _gen_tables(tier, rng):
             for cs in range(1, max(1, rows) + 1):
                 case = _shape_table(shp, rng, kinds, kd=kds[(q + cs) % 3])
                 case['cs'] = cs
-                if (q + cs) % 4 == 0: case['scs'] = 1 + (q % 3)
+                if (q + cs) % 6: case['scs'] = 1 + (q + cs) % 5
                 if (q + cs) % 13 == 0: case['twice'] = True
                 if (q + cs) % 9 == 0: case['form'] = 'h5'
                 yield case
@@ -917,7 +940,7 @@ def _gen_tables(tier, rng):
         if extra not in keymap and q % 3 == 0:
             keymap = sorted(keymap + [extra], key=lambda k: bytes(k).ljust(2, b'\0'))
         nk_ = len(keymap)
-        for order in (0, 1):
+        for order in ((1, 0) if q % 3 == 0 else (1,)):      # descending for every pair, ascending for every third
             shape = [(rng.choice([1, 1, 2]), rng.choice(['same', 'num', 'str', 'both'])) for _ in range(nk_)]
             if rng.random() < 0.3:
                 shape[rng.randrange(nk_)] = (0, 'new')
@@ -955,7 +978,7 @@ def _gen_tables(tier, rng):
         yield _dress(case, t)
     # D. numeric keys at the extremes of every dtype: every pair of palette values, snapshot in both orders; + triples
     q = 0
-    for kd in NUM_KD:
+    for kd in (NUM_KD if big else NUM_KD_QUICK):
         pal = KEY_PALETTE[kd]
         combos = list(itertools.combinations(pal, 2))
         combos += [tuple(sorted(rng.sample(pal, 3))) for _ in range(12 if big else 4)]
@@ -974,19 +997,22 @@ def _gen_tables(tier, rng):
                 case['vft'] = q % 4
                 yield _dress(case, q)
     # E. payload domains: every numeric payload dtype / string form on seeded tables of 2-6 rows
+    pds = PAYLOAD_D if big else PAYLOAD_D_QUICK
     for t in range((4000 if big else 700) * more):
         nk_ = rng.randint(1, 4)
         shape = [(rng.choice([0, 1, 1, 2, 3]), rng.choice(['absent', 'same', 'same', 'num', 'str', 'both'])) for _ in range(nk_)]
         shape = [(v, 'new' if v == 0 else st) for v, st in shape]
         kinds = rng.choice([['n', 's'], ['n', 's'], ['s', 'n'], ['n', 'n'], ['n', 's', 'n'], ['n'], ['s']])
         case = _shape_table(shape, rng, kinds, kd=rng.choice(kds + ['int64', 'uint8']))
+        if t % 2 and len(kinds) >= 2:
+            _confine(case, rng)
         if case['kd'] == 'uint8': case['okeys'] = [200 + k for k in case['okeys']]; case['nkeys'] = [200 + k for k in case['nkeys']]
         sv = [None, 'utf8', 'long', 'utf8'][t % 4]
         fs = []
         for i, f in enumerate(case['fields']):
             if f['k'] == 'n':
                 # with two numeric columns the second keeps int64 so that a difference confined to it is visible
-                fs.append(_retype(f, PAYLOAD_D[(t + i) % len(PAYLOAD_D)]) if (i == 0 or t % 3) else f)
+                fs.append(_retype(f, pds[(t + i) % len(pds)]) if (i == 0 or t % 3) else f)
             else:
                 fs.append(_restring(f, sv))
         case['fields'] = fs
@@ -998,7 +1024,7 @@ def _gen_tables(tier, rng):
         shape = [(rng.choice([0, 1, 1, 1, 2, 2, 3, 4]), rng.choice(['absent', 'same', 'same', 'num', 'str', 'both'])) for _ in range(nk_)]
         shape = [(v, 'new' if v == 0 else st) for v, st in shape]
         kinds = rng.choice([['n', 's'], ['n', 's'], ['s', 'n'], ['n'], ['s'], ['n', 's', 'n']])
-        kd = rng.choice(['int32', 'int64', 'int16', 'uint64', 'float64'])
+        kd = rng.choice(['int32', 'int64', 'int8' if len(shape) < 100 else 'int64', 'uint64', 'float64'])
         case = _shape_table(shape, rng, kinds, kd=kd)
         if rng.random() < 0.3:      # snapshot physically sorted, or sorted except one adjacent transposition
             srt = sorted(case['nkeys'])
@@ -1091,7 +1117,7 @@ def _gen_hot(K, tier, rng):
                 kinds = [['n', 's'], ['n'], ['s', 'n']][t % 3]
                 case = _shape_table(shape, rng, kinds, kd=['int64', 'int32', 'S1' if len(shape) <= 26 else 'int64'][t % 3])
                 if case['kd'] == 'S1' and len(shape) > 4:
-                    case['kd'] = 'int16'
+                    case['kd'] = 'int32'
                 case['cs'] = [K, K - 1 if K > 1 else 1, K + 1, 1, 2 * K, max(1, K // 2)][t % 6]
                 if t % 2: case['scs'] = [K, K + 1, max(1, K - 1)][t % 3]
                 yield case
@@ -1120,8 +1146,7 @@ def _gen_hot(K, tier, rng):
                 kinds = [rng.choice('ns') for _ in range(nf)]
                 shape = [(rng.choice([1, 2]), rng.choice(['same', 'num', 'str', 'both'])) for _ in range(3)] + [(0, 'new')]
                 case = _shape_table(shape, rng, kinds, kd='int64')
-                # the difference is confined to ONE column, at every position in turn
-                yield _dress(case, rep + nf)
+                yield _dress(_confine(case, rng), rep + nf)
 
 
 def shrink(case):
